@@ -12,16 +12,22 @@ assert not sh("git -C /repo status --porcelain -- pybrops"), "/repo not clean"
 base = sh("git -C /repo merge-base main fix-%s" % pid)
 commits = sh("git -C /repo rev-list --reverse %s..fix-%s" % (base, pid)).split()
 mapping = {}
+onmain = {l.split(" ", 1)[1]: l.split(" ", 1)[0] for l in sh("git -C /repo log --format='%H %s' main").splitlines()}
 for c in commits:
     subj = sh("git -C /repo log -1 --format=%%s %s" % c)
     assert subj.startswith("fix:"), "commit %s does not start with fix: (%s)" % (c, subj)
+    if subj in onmain:                      # already picked by an earlier (interrupted) run: only recover the mapping
+        mapping[c] = onmain[subj]; print("repo: %s already on main as %s" % (c[:8], onmain[subj][:8])); continue
     sh("git -C /repo cherry-pick %s" % c)
     new = sh("git -C /repo rev-parse HEAD")
     mapping[c] = new
     print("repo: %s -> %s  %s" % (c[:8], new[:8], subj))
 vbase = sh("git -C /verif merge-base main ws-%s" % pid)
 vcommits = sh("git -C /verif rev-list --reverse %s..ws-%s" % (vbase, pid)).split()
+vonmain = set(sh("git -C /verif log --format=%s main").splitlines())
 for c in vcommits:
+    if sh("git -C /verif log -1 --format=%%s %s" % c) in vonmain:
+        print("verif: %s already on main" % c[:8]); continue
     r = subprocess.run("git -C /verif cherry-pick %s" % c, shell=True, capture_output=True, text=True)
     if r.returncode:
         print("verif: cherry-pick of %s stopped:\n%s%s" % (c[:8], r.stdout, r.stderr)); sys.exit(2)
